@@ -18,8 +18,19 @@ def run(ctx):
         bfs = [("nb3", nb, 3), ("r0-2", r0, 2), ("all2", allr, 2)]
         walks = [dict(label="walk", tags="", walks=40, plies=80, shards=28)]
     fam = [("ep-slice", "Families_pos.cfg", {"VERIF_FAMILY": "ep", "VERIF_VARIANT": "rbq"[ctx.seed % 3], "VERIF_FILE": (ctx.seed * 3) % 8,
-                                              "VERIF_SLICE": ctx.seed % 8, "VERIF_SLICES": 8, "VERIF_HM": 0, "VERIF_EXTRA": "", "VERIF_EDGE": 0, "VERIF_NEAR": 0})] if ctx.tier == "quick" else \
+                                              "VERIF_SLICE": ctx.seed % 16, "VERIF_SLICES": 16})] if ctx.tier == "quick" else \
           [("ep-%s-%d" % (v, f), "Families_pos.cfg", {"VERIF_FAMILY": "ep", "VERIF_VARIANT": v, "VERIF_FILE": f, "VERIF_SLICE": 0, "VERIF_SLICES": 1})
            for v in "rbq" for f in range(8)]
+    if ctx.tier == "quick":
+        fam = fam + [("castle-slice", "Families_pos.cfg", {"VERIF_FAMILY": "castle", "VERIF_VARIANT": "nbrqp"[(ctx.seed + 2) % 5], "VERIF_FILE": 0,
+                                                            "VERIF_SLICE": (ctx.seed + 5) % 16, "VERIF_SLICES": 16}),
+                     ("promo-slice", "Families_pos.cfg", {"VERIF_FAMILY": "promo", "VERIF_VARIANT": "rbq"[(ctx.seed + 1) % 3], "VERIF_FILE": (ctx.seed * 5 + 3) % 8,
+                                                           "VERIF_SLICE": (ctx.seed * 13 + 7) % 64, "VERIF_SLICES": 64})]
+    else:
+        fam = fam + [("castle-%s" % v, "Families_pos.cfg", {"VERIF_FAMILY": "castle", "VERIF_VARIANT": v, "VERIF_FILE": 0, "VERIF_SLICE": 0, "VERIF_SLICES": 2}) for v in "nbrqp"]
+        fam = fam + [("promo-%s-%d" % (v, f), "Families_pos.cfg", {"VERIF_FAMILY": "promo", "VERIF_VARIANT": v, "VERIF_FILE": f, "VERIF_SLICE": (ctx.seed + 3 * f) % 64, "VERIF_SLICES": 64}) for v in "rbq" for f in (0, 3, 7)]
+    # check evasion / pins / double checks in the king's neighbourhood (1152 slices; thorough takes 24 of them)
+    ev = [(ctx.seed * 131 + 0 + i * 48) % 1152 for i in range(1 if ctx.tier == "quick" else 24)]
+    fam = fam + [("evade-%d" % sl, "Families_pos.cfg", {"VERIF_FAMILY": "evade", "VERIF_VARIANT": "x", "VERIF_FILE": 0, "VERIF_SLICE": sl, "VERIF_SLICES": 1152}) for sl in ev]
     board_pipeline(ctx, bfs, walks, fam)
     sys_model_check(ctx, allr, 1 if ctx.tier == "quick" else 2)
